@@ -150,7 +150,7 @@ func InstallJSONDecodeLibrary(w *World) {
 			newH, newV := e.heapName(e.cur, hk, hs), e.heapName(e.cur, vk, vs)
 			// other maps are untouched; this one gains the members of the document
 			e.assume(e.curReach, fmt.Sprintf("(forall ((x Int)) (! (=> (not (= x %s)) (and (= (select %s x) (select %s x)) (= (select %s x) (select %s x)))) :pattern ((select %s x)) :pattern ((select %s x))))", m, newH, oldH, newV, oldV, newH, newV))
-			e.assume(e.curReach, implies(and(okT, not(sx("docNull", d)), not(eq(m, "0"))), fmt.Sprintf("(forall ((k Str)) (! (and (= (select (select %s %s) k) (or (select (select %s %s) k) ((_ is d_some) (select (docObj %s) k)))) (=> ((_ is d_some) (select (docObj %s) k)) (= (rawdoc (select (select %s %s) k)) (d_val (select (docObj %s) k))))) :pattern ((select (select %s %s) k)) :pattern ((select (select %s %s) k))))", newH, m, oldH, m, d, d, newV, m, d, newH, m, newV, m)))
+			e.assume(e.curReach, implies(and(okT, not(sx("docNull", d)), not(eq(m, "0"))), fmt.Sprintf("(forall ((k Str)) (! (and (= (select (select %s %s) k) (or (select (select %s %s) k) ((_ is d_some) (select (docObj %s) k)))) (=> ((_ is d_some) (select (docObj %s) k)) (and (> (sl_base (select (select %s %s) k)) 0) (= (rawdoc (select (select %s %s) k)) (d_val (select (docObj %s) k)))))) :pattern ((select (select %s %s) k)) :pattern ((select (select %s %s) k))))", newH, m, oldH, m, d, d, newV, m, newV, m, d, newH, m, newV, m)))
 			e.assume(e.curReach, implies(and(okT, sx("docNull", d)), and(eq(sx("select", newH, m), sx("select", oldH, m)), eq(sx("select", newV, m), sx("select", oldV, m)))))
 			return true
 		}
@@ -204,13 +204,13 @@ func (e *FuncEnc) fieldAddr(c string, m jsonMember) string {
 }
 
 // decodeSpec: (fails, value) of decoding document d into Go type t under schema s.
-func (jf *JSONFamily) decodeSpec(e *FuncEnc, d string, t types.Type, s *RefSchema) (fails, value, problem string) {
+func (jf *JSONFamily) decodeSpec(e *FuncEnc, d, raw string, t types.Type, s *RefSchema) (fails, value, problem string) {
 	kind, inner := wrapperOf(t)
 	if kind == "Nullable" {
 		if s != nil && !s.Nullable {
 			return "false", e.D.Zero(t), fmt.Sprintf("Nullable Go type %s for a schema that is not nullable", t)
 		}
-		f, v, p := jf.decodePlain(e, d, inner, s)
+		f, v, p := jf.decodePlain(e, d, raw, inner, s)
 		isI, valI := structFieldIndex(t, "IsSet"), structFieldIndex(t, "Value")
 		mk := "mk_" + e.D.SortOf(t)
 		build := func(is, val string) string {
@@ -223,10 +223,14 @@ func (jf *JSONFamily) decodeSpec(e *FuncEnc, d string, t types.Type, s *RefSchem
 	if s != nil && s.Nullable {
 		return "false", e.D.Zero(t), fmt.Sprintf("nullable schema but Go type %s", t)
 	}
-	return jf.decodePlain(e, d, t, s)
+	return jf.decodePlain(e, d, raw, t, s)
 }
 
-func (jf *JSONFamily) decodePlain(e *FuncEnc, d string, t types.Type, s *RefSchema) (fails, value, problem string) {
+func (jf *JSONFamily) decodePlain(e *FuncEnc, d, raw string, t types.Type, s *RefSchema) (fails, value, problem string) {
+	if isRawMessage(t) {
+		// any: the raw message itself is kept
+		return "false", raw, ""
+	}
 	if !goKindMatches(t, s) {
 		return "false", e.D.Zero(t), fmt.Sprintf("Go type %s does not decode JSON %q", t, s.Type)
 	}
@@ -260,7 +264,8 @@ func (jf *JSONFamily) unMembers(e *FuncEnc, jt *jsonType, c string, has0, val0 s
 	var out []unMember
 	for _, m := range jt.Members {
 		lit := e.D.Lit(m.Name)
-		u := unMember{m: m, present: sx("select", has0, lit), doc: sx("rawdoc", sx("select", val0, lit)), addr: e.fieldAddr(c, m), zero: e.D.Zero(m.Type)}
+		rawv := sx("select", val0, lit)
+		u := unMember{m: m, present: sx("select", has0, lit), doc: sx("rawdoc", rawv), addr: e.fieldAddr(c, m), zero: e.D.Zero(m.Type)}
 		kind, inner := wrapperOf(m.Type)
 		if !m.Required {
 			if kind != "Maybe" {
@@ -268,7 +273,7 @@ func (jf *JSONFamily) unMembers(e *FuncEnc, jt *jsonType, c string, has0, val0 s
 				out = append(out, u)
 				continue
 			}
-			f, v, p := jf.decodeSpec(e, u.doc, inner, m.Schema)
+			f, v, p := jf.decodeSpec(e, u.doc, rawv, inner, m.Schema)
 			isI, valI := structFieldIndex(m.Type, "IsSet"), structFieldIndex(m.Type, "Value")
 			args := make([]string, 2)
 			args[isI], args[valI] = "true", v
@@ -279,7 +284,7 @@ func (jf *JSONFamily) unMembers(e *FuncEnc, jt *jsonType, c string, has0, val0 s
 				out = append(out, u)
 				continue
 			}
-			u.fails, u.value, u.problem = jf.decodeSpec(e, u.doc, m.Type, m.Schema)
+			u.fails, u.value, u.problem = jf.decodeSpec(e, u.doc, rawv, m.Type, m.Schema)
 		}
 		out = append(out, u)
 	}
@@ -321,7 +326,7 @@ func (jf *JSONFamily) unSpec(e *FuncEnc, jt *jsonType, c, err string, has0, val0
 		bads = append(bads, bad)
 		named = append(named, and(bad, e.namesProperty(err, u.m.Name)))
 		got := e.load(post, u.addr, u.m.Type)
-		outF = append(outF, NamedFormula{Name: "ensures#decodes:" + u.m.Name, Props: []string{"C08", "C06"}, Formula: implies(ok, eq(got, ite(u.present, u.value, u.zero)))})
+		outF = append(outF, NamedFormula{Name: "ensures#decodes:" + u.m.Name, Props: []string{"C08", "C06"}, Formula: implies(ok, jf.sameDecoded(e, got, ite(u.present, u.value, u.zero), u.m.Type))})
 		// strictness: a non-null value of another JSON kind is rejected
 		if k := jsonKindOfSchema(u.m.Schema); k != 0 {
 			outF = append(outF, NamedFormula{Name: "ensures#strict-type:" + u.m.Name, Props: []string{"C08"}, Formula: implies(and(u.present, not(sx("docNull", u.doc)), not(eq(sx("docKind", u.doc), itoa(int64(k))))), not(ok))})
@@ -460,7 +465,7 @@ func (jf *JSONFamily) installUnOuter(f *ssa.Function, jt *jsonType) {
 		e.D.UF("doc_has", []string{"Doc"}, "(Array Str Bool)")
 		e.D.UF("doc_raw", []string{"Doc"}, "(Array Str Slice)")
 		e.D.Axiom("doc_has", "(forall ((d Doc) (k Str)) (! (= (select (doc_has d) k) (and (not (docNull d)) ((_ is d_some) (select (docObj d) k)))) :pattern ((select (doc_has d) k))))")
-		e.D.Axiom("doc_raw", "(forall ((d Doc) (k Str)) (! (=> (select (doc_has d) k) (= (rawdoc (select (doc_raw d) k)) (d_val (select (docObj d) k)))) :pattern ((select (doc_raw d) k))))")
+		e.D.Axiom("doc_raw", "(forall ((d Doc) (k Str)) (! (=> (select (doc_has d) k) (and (> (sl_base (select (doc_raw d) k)) 0) (= (rawdoc (select (doc_raw d) k)) (d_val (select (docObj d) k))))) :pattern ((select (doc_raw d) k))))")
 		fs := jf.unSpec(e, jt, cptr, err, sx("doc_has", d), sx("doc_raw", d), post, sx(e.rawMapErrFn(), d))
 		okk := eq(sx("if_tag", err), "0")
 		fs = append(fs, NamedFormula{Name: "ensures#strict-object", Props: []string{"C08"}, Formula: implies(and(not(sx("docNull", d)), not(eq(sx("docKind", d), "1"))), not(okk))})
@@ -628,4 +633,33 @@ func (jf *JSONFamily) installUnAPLoop(c *Contract, f *ssa.Function, jt *jsonType
 		}
 		return out
 	}
+}
+
+// sameDecoded: equality of a decoded field with its specified value; raw
+// messages (schema "any") are compared by the document they hold.
+func (jf *JSONFamily) sameDecoded(e *FuncEnc, a, b string, t types.Type) string {
+	kind, inner := wrapperOf(t)
+	if kind != "" && containsRaw(inner) {
+		is := e.D.FieldSelector(t, structFieldIndex(t, "IsSet"))
+		vl := e.D.FieldSelector(t, structFieldIndex(t, "Value"))
+		return and(eq(sx(is, a), sx(is, b)), implies(sx(is, a), jf.sameDecoded(e, sx(vl, a), sx(vl, b), inner)))
+	}
+	if isRawMessage(t) {
+		return and(eq(eq(sx("sl_base", a), "0"), eq(sx("sl_base", b), "0")), eq(sx("rawdoc", a), sx("rawdoc", b)))
+	}
+	return eq(a, b)
+}
+
+func containsRaw(t types.Type) bool {
+	for i := 0; i < 3; i++ {
+		if isRawMessage(t) {
+			return true
+		}
+		k, in := wrapperOf(t)
+		if k == "" {
+			return false
+		}
+		t = in
+	}
+	return false
 }
